@@ -74,6 +74,16 @@ impl<'a, T: Read + Seek> QueueReader<'a, T> {
 
     /// Reads the next packet from the compressed vector and decodes it into the queues.
     pub fn advance(&mut self) -> Result<()> {
+        // Corner case: if all records have a bit size of zero (because min=max),
+        // the points need no data at all and there are no data packets to read.
+        // All values are defined by the prototype and can be generated directly.
+        // This is done in chunks, the point iterators know when to stop.
+        const ZERO_SIZE_CHUNK: usize = 1024;
+        let prototype = &self.pc.prototype;
+        if !prototype.is_empty() && prototype.iter().all(|r| r.data_type.bit_size() == 0) {
+            return self.parse_byte_streams(self.available() + ZERO_SIZE_CHUNK);
+        }
+
         let packet_header = PacketHeader::read(self.reader)?;
         match packet_header {
             PacketHeader::Index(header) => {
